@@ -12,6 +12,22 @@ CLAIMS = {
              "beyond rule TS-5C.",
         note=TRUST + "Forwarding table (wrapper -> member, argument order) was derived from today's wrapper and is frozen in psv/rules/cw.py.",
         technique="custom AST/CFG lints: exception-effect summary + try containment, must-dataflow on handle state, forwarding table"),
+    "C08": dict(
+        text="Decides, on the CFG of the instantiated writers (write_fits, write_fits_mem, write_fits_core and their scope-guard destructors), "
+             "that no cfitsio status is dropped before a normal exit, that the success path passes through a checked fits_close_file with the "
+             "guard disarmed, that creation status is checked before the handle is used, and that the two C write wrappers contain and map "
+             "failures. All paths of those functions. Does not decide the behaviour of a reader on a truncated file (cfitsio runtime "
+             "behaviour), nor byte-granularity crash points.",
+        note=TRUST + "cfitsio inherited-status convention assumed (a call entered with non-zero status is a no-op).",
+        technique="CFG dataflow (pending-status / must-pass-through checked close / guard typestate) over the instantiated writers"),
+    "C12": dict(
+        text="Decides the monitor discipline of the coordinator/worker hand-shake (walk_descents / evaluate_descent): lockset on the protected "
+             "state, wait predicate re-tested under the mutex before every wait (no lost wake-up), broadcast after every state store before "
+             "release, hand-off phases for worker-owned fields, thread lifecycle, ascending first-success selection, read-only use of objects "
+             "shared by all workers. Disjunctive dataflow, all CFG paths, path-sensitive on constant locals. Does not decide equality of results "
+             "across worker counts (argued only) nor races inside CHOLMOD.",
+        note=TRUST + "POSIX condition-variable semantics; one mutex and one condition variable shared via trial 0 (checked).",
+        technique="lockset / typestate dataflow over clang CFGs of the C fitter, shared-object effect table"),
 }
 
 NOT_APPLICABLE = {
@@ -22,4 +38,4 @@ NOT_APPLICABLE = {
 
 # properties whose check is designed (DESIGN.md §4) but not yet built in this tree
 PENDING = {p: "static check designed in DESIGN.md §4 but not built yet in this tree; not claimed until it runs"
-           for p in ("C02", "C03", "C04", "C05", "C06", "C07", "C08", "C10", "C11", "C12", "C13", "C14", "C15", "C16", "C19", "C20")}
+           for p in ("C02", "C03", "C04", "C05", "C06", "C07", "C10", "C11", "C13", "C14", "C15", "C16", "C19", "C20")}
